@@ -33,8 +33,15 @@ LEVEL_NOTE = ("Partial: a node whose applied entries were rolled back by a later
               "condition consistent_run (refuted without it: O-3b); (3) the model treats a node's log as one list: a prefix installed as a DB "
               "snapshot is invisible to the code paths that read the WAL (NewTerm head report, truncateFollowerIfNeeded, duplicate detection) -- "
               "three further open findings found by the monitors; model validation of a trace stops at the first of them, the monitors go on; "
-              "(4) append+sync+ack of a follower and append+sync of a leader are single actions (the unsynced tail is C03/C04/C09 territory); "
-              "a crash is a clean stop of the process (what is in the memory-mapped WAL and the flushed Pebble files survives). "
+              "(4) append+sync of a follower (reported when it acknowledges) and of a leader are single actions of the model: logs are durable logs. "
+              "The real WALs run with real syncs (SyncData) and two kinds of crash are exercised: `crash` is the death of the process (the files stay as "
+              "they are: the memory-mapped WAL and the flushed Pebble files survive, an unsynced tail included) and `powerloss` brings the node back with "
+              "its database as it is and its WAL as it was when the last COMPLETED flush started (image taken at the start of every msync; flushes can be "
+              "held by the schedule so that appends land while one is in flight). Both map to the model's Crash (entries of the unsynced tail that are in "
+              "the recovered WAL are reported as appended just before it): this is sound exactly as long as an acknowledgement implies durability, which "
+              "the monitor ack:follower-acked-unsynced-entry checks at every ack a follower sends (the follower's wal.LastOffset() at the moment of the "
+              "send must cover the acknowledged offset; scripted corpus/cluster/13-ack-before-sync-then-power-loss.case) and "
+              "restart:log-differs-from-synced-prefix checks at every restart. "
               "Trusted: Coq kernel, extraction, the Go harness (in-memory replication streams with gRPC semantics, RPC gates, canonical event "
               "order after quiescence). Not reproducible from the seed: selectNewLeader's pick among equal heads (Go map iteration order) "
               "and the 100 ms grace timer of newTermQuorum; the event log records what happened and the verdict does not depend on it.")
